@@ -62,6 +62,14 @@
 #include <BitSequenceRRR.h>
 #include <BitSequenceBuilder.h>
 #include <Sequence.h>
+#include <BitSequenceSDArray.h>
+#include <BitSequenceDArray.h>
+#include <BitSequenceBuilderRG.h>
+#include <BitSequenceBuilderRRR.h>
+#include <WaveletTree.h>
+#include <WaveletTreeNoptrs.h>
+#include <wt_coder_huff.h>
+#include <MapperNone.h>
 #undef private
 #undef protected
 
@@ -610,11 +618,158 @@ static void runPool(const Case &c) {
 }
 
 // ---------------------------------------------------------------------------
+// C18: code tables exported for re-validation by the Lean driver (two-phase).
+static vector<string> splitc(const string &s, char sep = ',') {
+  vector<string> r; string cur;
+  for (char ch : s) { if (ch == sep) { r.push_back(cur); cur.clear(); } else cur.push_back(ch); }
+  r.push_back(cur);
+  return r;
+}
+
+static void runCodes(const Case &c) {
+  for (auto &op : c.ops) {
+    g_op++;
+    if (op[0] == "hu" || op[0] == "hf") {
+      auto f = splitc(op[1]);
+      uint *occ = new uint[256];
+      for (int i = 0; i < 256; i++) occ[i] = i < (int)f.size() ? (uint)strtoul(f[i].c_str(), nullptr, 10) : 1;
+      Codeword *cw = nullptr;
+      HuTucker *ht = nullptr; Huffman *hf = nullptr;
+      if (op[0] == "hu") { ht = new HuTucker(occ); cw = ht->obtainCodewords(); }
+      else { hf = new Huffman(occ); cw = hf->obtainCodewords(); }
+      string r;
+      for (int i = 0; i < 256; i++) {
+        char b[40]; snprintf(b, sizeof b, "%s%u:%x", i ? "," : "", cw[i].bits, cw[i].codeword);
+        r += b;
+      }
+      emit("CT %s %s", op[0].c_str(), r.c_str());
+      delete[] cw; delete ht; delete hf; delete[] occ;
+    } else emit("ERR unknown-op");
+  }
+}
+
+// C19: bit sequences and wavelet-tree sequences against the plain definitions.
+static void runBits(const Case &c) {
+  for (auto &op : c.ops) {
+    g_op++;
+    if (op[0] == "bv") { // bv <impl> <param> <nbits> <hex of bytes, bit k = byte k/8 bit k%8>
+      string impl = op[1]; uint par = (uint)atoi(op[2].c_str()); size_t n = strtoull(op[3].c_str(), nullptr, 10);
+      string bytes = unhex(op[4]);
+      size_t words = n / 32 + 2;
+      uint *arr = new uint[words];
+      for (size_t i = 0; i < words; i++) arr[i] = 0;
+      for (size_t k = 0; k < n; k++) if ((bytes[k / 8] >> (k % 8)) & 1) arr[k / 32] |= (1u << (k % 32));
+      cds_static::BitSequence *bs = nullptr;
+      if (impl == "rg") bs = new cds_static::BitSequenceRG(arr, n, par);
+      else if (impl == "rrr") bs = new cds_static::BitSequenceRRR(arr, n, par);
+      else if (impl == "sd") bs = new cds_static::BitSequenceSDArray(arr, n);
+      else if (impl == "da") bs = new cds_static::BitSequenceDArray(arr, n);
+      bool reload = op.size() > 5 && op[5] == "reload";
+      if (bs && reload) {
+        std::stringstream ss(std::ios::in | std::ios::out | std::ios::binary);
+        bs->save(ss);
+        cds_static::BitSequence *b2 = cds_static::BitSequence::load(ss);
+        delete bs; bs = b2;
+      }
+      if (!bs) { emit("BV null"); delete[] arr; continue; }
+      string acc, r1, r0, s1, s0;
+      size_t ones = 0;
+      for (size_t k = 0; k < n; k++) {
+        acc += bs->access(k) ? '1' : '0';
+        r1 += (k ? "," : "") + std::to_string(bs->rank1(k));
+        r0 += (k ? "," : "") + std::to_string(bs->rank0(k));
+        if ((bytes[k / 8] >> (k % 8)) & 1) ones++;
+      }
+      for (size_t j = 1; j <= ones; j++) s1 += (j > 1 ? "," : "") + std::to_string(bs->select1(j));
+      for (size_t j = 1; j <= n - ones; j++) s0 += (j > 1 ? "," : "") + std::to_string(bs->select0(j));
+      emit("BV n=%zu acc=%s r1=%s r0=%s s1=%s s0=%s cnt=%zu", n, acc.empty() ? "-" : acc.c_str(), r1.empty() ? "-" : r1.c_str(),
+           r0.empty() ? "-" : r0.c_str(), s1.empty() ? "-" : s1.c_str(), s0.empty() ? "-" : s0.c_str(), bs->countOnes());
+      delete bs; delete[] arr;
+    } else if (op[0] == "wt") { // wt <impl> <comma separated symbols> [reload]
+      string impl = op[1];
+      auto f = splitc(op[2]);
+      size_t n = f.size();
+      uint *seq = new uint[n];
+      uint mx = 0;
+      for (size_t i = 0; i < n; i++) { seq[i] = (uint)strtoul(f[i].c_str(), nullptr, 10); mx = std::max(mx, seq[i]); }
+      cds_static::Sequence *sq = nullptr;
+      cds_static::Mapper *am = new cds_static::MapperNone();
+      cds_static::BitSequenceBuilder *bsb = new cds_static::BitSequenceBuilderRG(20);
+      if (impl == "wt") {
+        cds_static::wt_coder *wc = new cds_static::wt_coder_huff(seq, n, am);
+        sq = new cds_static::WaveletTree(seq, n, wc, bsb, am);
+      } else {
+        sq = new cds_static::WaveletTreeNoptrs(seq, n, bsb, am);
+      }
+      bool reload = op.size() > 3 && op[3] == "reload";
+      if (reload) {
+        std::stringstream ss(std::ios::in | std::ios::out | std::ios::binary);
+        sq->save(ss);
+        cds_static::Sequence *s2 = cds_static::Sequence::load(ss);
+        delete sq; sq = s2;
+      }
+      if (!sq) { emit("WT null"); continue; }
+      string acc, rk, sl;
+      for (size_t i = 0; i < n; i++) acc += (i ? "," : "") + std::to_string(sq->access(i));
+      // rank(c, i) for every symbol c <= max and a grid of i; select(c, j) for every occurrence
+      for (uint cc = 0; cc <= mx; cc++) {
+        size_t occ = 0;
+        for (size_t i = 0; i < n; i++) {
+          if (seq[i] == cc) occ++;
+          if (i % 3 == 0 || i + 1 == n) rk += std::to_string(sq->rank(cc, i)) + ",";
+        }
+        for (size_t j = 1; j <= occ; j++) sl += std::to_string(sq->select(cc, j)) + ",";
+      }
+      emit("WT n=%zu acc=%s rk=%s sl=%s", n, acc.c_str(), rk.empty() ? "-" : rk.c_str(), sl.empty() ? "-" : sl.c_str());
+      delete sq; delete[] seq;
+    } else emit("ERR unknown-op");
+  }
+}
+
+// C20: the grammar and compacted sequence the real compressor produces (two-phase).
+static void runRePair(const Case &c) {
+  for (auto &op : c.ops) {
+    g_op++;
+    if (op[0] == "rp") { // rp <maxchar> <comma separated ints, 0 = terminator> [reload]
+      uchar maxchar = (uchar)atoi(op[1].c_str());
+      auto f = splitc(op[2]);
+      size_t n = f.size();
+      int *seq = new int[n];
+      for (size_t i = 0; i < n; i++) seq[i] = atoi(f[i].c_str());
+      RePair *rp = new RePair(seq, (uint)n, maxchar);
+      // compaction exactly as the dictionary constructors do it
+      string cs;
+      size_t io = 0, cnt = 0;
+      while (io < n) {
+        if (seq[io] >= 0) { cs += (cnt ? "," : "") + std::to_string(seq[io]); cnt++; io++; }
+        else io = (size_t)(-(seq[io] + 1));
+      }
+      bool reload = op.size() > 3 && op[3] == "reload";
+      if (reload) {
+        std::stringstream ss(std::ios::in | std::ios::out | std::ios::binary);
+        rp->save(ss);
+        RePair *r2 = RePair::loadNoSeq(ss);
+        delete rp; rp = r2;
+      }
+      string rules;
+      for (uint64_t k = 0; k < rp->rules; k++)
+        rules += (k ? "," : "") + std::to_string(rp->G->getField(2 * k)) + ":" + std::to_string(rp->G->getField(2 * k + 1));
+      emit("RP t=%llu bits=%u rules=%s seq=%s", (unsigned long long)rp->terminals, rp->getBits(),
+           rules.empty() ? "-" : rules.c_str(), cs.empty() ? "-" : cs.c_str());
+      delete rp; delete[] seq;
+    } else emit("ERR unknown-op");
+  }
+}
+
+// ---------------------------------------------------------------------------
 static void runCase(const Case &c) {
   if (c.stream == "dict") runDict(c);
   else if (c.stream == "vbyte") runVByte(c);
   else if (c.stream == "logseq") runLogSeq(c);
   else if (c.stream == "pool") runPool(c);
+  else if (c.stream == "codes") runCodes(c);
+  else if (c.stream == "bits") runBits(c);
+  else if (c.stream == "repair") runRePair(c);
   else emit("ERR unknown-stream %s", c.stream.c_str());
 }
 
